@@ -56,7 +56,8 @@ def case_strategy(unit):
         "ang": st.tuples(S.fl(40, 115), S.fl(60, 120), S.fl(-1, 1)).map(list),
         "tri_alpha": S.fl(55, 125), "orth": st.integers(0, 3).map(lambda i: i == 0),
         "gap": S.fl(0, 1), "smin_gap": st.one_of(st.none(), S.fl(0, 1)),
-        "byname": st.booleans(), "upper": st.booleans(), "blank": st.booleans(),
+        "byname": st.booleans(), "upper": st.booleans(), "blank": st.booleans(), "name_only": st.booleans(),
+        "cell_as": st.sampled_from(["list", "list", "array"]),   # (a tuple cell makes the debug logging of six Laue classes raise TypeError: observed, outside the documented list/array input, not claimed)
         "npseed": st.integers(0, 2 ** 31 - 1), "npseed2": st.integers(0, 2 ** 31 - 1),
         "mod": st.sampled_from(["tools", "laue"]), "pick": S.fl(0, 1)})
 
@@ -109,7 +110,14 @@ def build(case, max_points=1500):
         name = name.upper()
     if case["blank"]:
         name = " ".join(name)
-    B.kw = dict(sgname=name, cell_choice=ch) if case["byname"] else dict(sgno=no, cell_choice=ch)
+    if case["byname"]:
+        # the setting of an R group can be selected by the trailing r of the name alone (cell_choice left at its default)
+        B.kw = dict(sgname=name) if case.get("name_only") else dict(sgname=name, cell_choice=ch)
+    else:
+        B.kw = dict(sgno=no, cell_choice=ch)
+    # how the caller holds the cell: list, tuple, or one float ndarray (read-only: the generators must not modify it)
+    how = case.get("cell_as", "list")
+    B.cell_arg = O.ro(cell) if how == "array" else (tuple(cell) if how == "tuple" else list(cell))
     B.oblique = any(abs(x - 90.0) > 1e-9 for x in cell[3:6]) and g.crystal_system in ("triclinic", "monoclinic", "trigonal") and \
         (ch == "rhombohedral" or g.crystal_system in ("triclinic", "monoclinic"))
     return B
